@@ -264,9 +264,14 @@ def models_agree(ctx, models, at, nd, a0):
         return False, f'self.models is not filled element-wise: {T.brief(models, 120) if models else None}'
     init, stores = models[1], models[2]
     # rows must be distinct objects: zeros(shape).tolist() or a nested comprehension; never list repetition of a list
-    if any(x[0] == 'call' and x[1] in ('seqrepeat',) for x in T.walk(init)) or (init[0] in ('list', 'tuple') and nd == 3):
-        return False, f'container rows may alias each other: {T.brief(init, 120)}'
-    if not (init[0] == 'call' and init[1] == 'zeros') and init[0] != 'map':
+    def rows_alias(t):
+        # list repetition of a list (or of another repetition) yields ONE inner list referenced from every row
+        return t[0] == 'call' and t[1] == 'seqrepeat' and t[2] and t[2][0][0] in ('list', 'tuple') and \
+            any(e[0] in ('list', 'tuple') or (e[0] == 'call' and e[1] == 'seqrepeat') for e in t[2][0][1])
+    if any(rows_alias(x) for x in T.walk(init)):
+        return False, f'container rows alias each other: {T.brief(init, 120)}'
+    flat_ok = nd == 2 and ((init[0] == 'call' and init[1] == 'seqrepeat') or init[0] in ('list',))
+    if not (init[0] == 'call' and init[1] == 'zeros') and init[0] != 'map' and not flat_ok:
         return False, f'unrecognised container initialiser {T.brief(init, 120)}'
     if len(stores) != 1:
         return False, f'{len(stores)} stores into self.models'
